@@ -356,3 +356,49 @@ Theorem C01_source_ior : forall p q a, PInv p -> Good q -> wf_op (IOr a) = true 
   = match pm_update p q a [] with Ok p' => (Ok VSelfObj, p') | Raise e => (Raise e, p) end.
 Proof. exact (source_ior 0). Qed.
 Print Assumptions C01_source_ior.
+
+(* ordered readers: the generators that walk the ring (run to completion) and their list wrappers *)
+From Boltons Require Import Proofs.C01_SrcEq4.
+Theorem C01_source_iterkeys : forall p multi, Good p ->
+  src_call MIterKeys [VBool multi] p
+  = (Ok (VToks (if multi then map c_key (p_cells p) else pm_iterkeys p)), p).
+Proof. exact (source_iterkeys 3). Qed.
+Print Assumptions C01_source_iterkeys.
+Theorem C01_source_reversed : forall p, Good p ->
+  src_call MReversed [] p
+  = (match p_rev_walk p [] (p_cells_rev p) with Ok l => Ok (VToks l) | Raise e => Raise e end, p).
+Proof. exact (source_reversed 3). Qed.
+Print Assumptions C01_source_reversed.
+Theorem C01_source_iteritems : forall p multi, Good p ->
+  src_call MIterItems [VBool multi] p
+  = (if multi then Ok (VPairs (pm_items p))
+     else match pm_items1 p with Ok l => Ok (VPairs l) | Raise e => Raise e end, p).
+Proof. exact (source_iteritems 2). Qed.
+Print Assumptions C01_source_iteritems.
+Theorem C01_source_itervalues : forall p multi, Good p ->
+  src_call MIterValues [VBool multi] p
+  = (if multi then Ok (VToks (map snd (pm_items p)))
+     else match pm_items1 p with Ok l => Ok (VToks (map snd l)) | Raise e => Raise e end, p).
+Proof. exact (source_itervalues 1). Qed.
+Print Assumptions C01_source_itervalues.
+Theorem C01_source_keys : forall p multi, Good p ->
+  src_call MKeys [VBool multi] p
+  = (Ok (VToks (if multi then map c_key (p_cells p) else pm_iterkeys p)), p).
+Proof. exact (source_keys 2). Qed.
+Print Assumptions C01_source_keys.
+Theorem C01_source_values : forall p multi, Good p ->
+  src_call MValues [VBool multi] p
+  = (if multi then Ok (VToks (map snd (pm_items p)))
+     else match pm_items1 p with Ok l => Ok (VToks (map snd l)) | Raise e => Raise e end, p).
+Proof. exact (source_values 0). Qed.
+Print Assumptions C01_source_values.
+Theorem C01_source_items : forall p multi, Good p ->
+  src_call MItems [VBool multi] p
+  = (if multi then Ok (VPairs (pm_items p))
+     else match pm_items1 p with Ok l => Ok (VPairs l) | Raise e => Raise e end, p).
+Proof. exact (source_items 1). Qed.
+Print Assumptions C01_source_items.
+Theorem C01_source_iter : forall p, Good p ->
+  src_call MIter [] p = (Ok (VToks (pm_iterkeys p)), p).
+Proof. exact (source_iter 2). Qed.
+Print Assumptions C01_source_iter.
